@@ -417,9 +417,9 @@ func genRoundtrip(g *G, tier string, emit func(string)) {
 	emit("c ~ ~ - ; (env) (atlas 0) f64 (f 4415af1d78b58c40)")
 	emit("j ~ ~ " + shortestOracle(1e20) + " ; (env) (atlas 0) f64 (f 4415af1d78b58c40)")
 	emit("j ~ ~ " + shortestOracle(-9223372036854775808.0) + " ; (env) (atlas 0) f64 (f c3e0000000000000)")
-	n := 8000
+	n := 30000
 	if tier == "thorough" {
-		n = 150000
+		n = 600000
 	}
 	for i := 0; i < n; i++ {
 		isJSON := i%2 == 1
